@@ -178,9 +178,13 @@ def inplace_edit(rng, b, spec):
             fr[k] = v
         elif ch == "rebind-data":
             newf = gen.rframes(rng, gen.rmask(rng, n), w)
-            it2 = lib.build_item(kind, dict(s2[key][i], frames=newf), {})
+            # the new arrays come as the caller happens to have them: float32, float64 (what most numpy routines
+            # return) or big-endian - chosen without drawing from the edit stream
+            var2 = [{}, {"dtype": "f8"}, {"endian": ">"}][(n + i + len(newf and [f for f in newf if f is None])) % 3]
+            it2 = lib.build_item(kind, dict(s2[key][i], frames=newf), var2)
             if kind in ("data3D", "emg"):
-                its[i].data = it2.data
+                # a raw array, not one that went through a track constructor
+                its[i].data = lib._frames_array(newf, w, lib._fdt(var2))
             else:
                 its[i].application_point, its[i].force, its[i].torque = it2.application_point, it2.force, it2.torque
             s2[key][i]["frames"] = newf
